@@ -10,11 +10,13 @@ PROPS = "NoAttemptWhilePaused Backoff ArmIndex"
 # mismatch kinds that are violations of the statement (the others are binding drift -> exit 2)
 VIOLATION_KINDS = {
     "begin-while-paused": "DevNoPauseCheckInAttempt",   # a connection attempt started while paused
-    "extra-timer": "DevDoubleTimer",                    # more than one timer pending / a timer armed while paused
-    "begin-unexpected": "DevDoubleTimer",               # a superseded timer started an attempt (an extra retry, wrong delay)
+    "extra-attempt": "DevDoubleTimer",                  # a second timer of the address fired and started an attempt of its own
+    "backoff-order": "DevDoubleTimer",                  # n-th consecutive attempt started by a timer armed with another index
     "early-timer": "delay-too-short",                   # delay below nominal*(1-jitter)
     "backoff-state": "backoff-index",                   # next delay is not min(initial*mult^attempts, max)
 }
+# drift (the code differs from the spec without breaking the statement): begin-unexpected (a superseded timer started
+# the attempt instead of the current one), skip-unexpected, state, timer-missing, extra-timer-harmless
 
 
 def cfg(addrs, cap_, maxatt, attbound, maxgate, maxinfl, withstop, dev=(), emit=True, invs=INVS, props=PROPS):
@@ -31,12 +33,14 @@ def is_init(s):
             and all(len(v) == 0 for v in s["pend"].values()))
 
 
-def sensitivity(ctx, base):
-    """every deviation must be caught by TLC, by each of the invariants that is meant to exclude it"""
+def sensitivity(ctx, base, separately):
+    """every deviation must be caught by TLC (separately: by each of the invariants that is meant to exclude it)"""
     caught = {}
     want = {"DevNoPauseCheckInAttempt": [("", "NoAttemptWhilePaused"), ("NoTimerWhilePaused", "")],
             "DevDoubleTimer": [("OneTimer", ""), ("", "Backoff")]}
     for d, checks in want.items():
+        if not separately:
+            checks = [(INVS, PROPS)]
         for invs, props in checks:
             r = ctx.tlc("Reconnect", "MCdev.cfg", files={"MCdev.cfg": cfg(*base, dev=[d], emit=False, invs=invs, props=props)},
                         expect_violation=True)
@@ -46,22 +50,26 @@ def sensitivity(ctx, base):
     return caught
 
 
-def replay(ctx, name, consts, initial_ms=20, jitter=0.2, max_len=100, par=24):
-    """consts = (addrs, cap, maxatt, attbound, maxgate, maxinfl, withstop).  Returns dict with TLC result and harness records."""
-    ideal = ctx.tlc("Reconnect", "MC%s.cfg" % name, files={"MC%s.cfg" % name: cfg(*consts)})
-    if ideal.violated:
-        raise vf.Infra("ideal Reconnect spec violates %s (specification error)" % ideal.violated)
-    paths, nnodes, nedges = vf.path_cover(ideal.edges, init_pred=is_init, max_len=max_len)
-    inp = vf.write_json(os.path.join(ctx.work, "recon_paths_%s.json" % name),
-                        {"addrs": list(consts[0]), "cap": consts[1], "max_attempts": consts[2], "initial_ms": initial_ms,
-                         "jitter": jitter, "paths": paths})
-    r = ctx.gotest("peer", HF, "^TestZZVReconReplay$", env={"ZZV_IN": inp, "ZZV_PAR": par}, timeout=1500)
+def replay(ctx, runs, initial_ms=20, jitter=0.2, max_len=100, par=24):
+    """runs = [(name, (addrs, cap, maxatt, attbound, maxgate, maxinfl, withstop))]: one TLC run + path cover each, all
+    replayed by one harness invocation.  Returns dict with per-run TLC results and the harness records."""
+    models, inp = {}, []
+    for name, consts in runs:
+        ideal = ctx.tlc("Reconnect", "MC%s.cfg" % name, files={"MC%s.cfg" % name: cfg(*consts)})
+        if ideal.violated:
+            raise vf.Infra("ideal Reconnect spec violates %s (specification error)" % ideal.violated)
+        paths, nnodes, nedges = vf.path_cover(ideal.edges, init_pred=is_init, max_len=max_len)
+        models[name] = {"ideal": ideal, "paths": paths, "nodes": nnodes, "edges": nedges}
+        inp.append({"name": name, "addrs": list(consts[0]), "cap": consts[1], "max_attempts": consts[2],
+                    "initial_ms": initial_ms, "jitter": jitter, "paths": paths})
+    fn = vf.write_json(os.path.join(ctx.work, "recon_paths.json"), {"runs": inp})
+    r = ctx.gotest("peer", HF, "^TestZZVReconReplay$", env={"ZZV_IN": fn, "ZZV_PAR": par, "ZZV_CORRUPT": os.environ.get("ZZV_CORRUPT", "")}, timeout=1500)
     summ = (r.of("summary") or [None])[0]
     if not summ:
         raise vf.Infra("replay harness produced no summary:\n" + r.out[-3000:])
     if summ["infra"]:
         raise vf.Infra("replay harness could not drive the code: %s" % summ["infra"][:3])
-    return {"ideal": ideal, "paths": paths, "nodes": nnodes, "edges": nedges, "summary": summ, "mismatches": r.of("mismatch")}
+    return {"models": models, "summary": summ, "mismatches": r.of("mismatch")}
 
 
 def report(ctx, res, where):
@@ -74,11 +82,105 @@ def report(ctx, res, where):
             drift.append(mm)
             continue
         dev = VIOLATION_KINDS[kind]
-        if kind == "extra-timer" and mm["real_t"].get("paused"):
-            dev = "DevNoPauseCheckInAttempt"
         key = "Reconnect:%s:%s:%s" % (dev, kind, where)
         what = "%s: %s at step %d (%s %s -> spec %s): %s; schedule: %s" % (
             where, kind, mm["step"], a.get("act"), a.get("a", ""), a.get("res", ""), mm["detail"],
             " ".join("%s%s" % (x["act"], ("(" + x.get("res", "") + ")") if x.get("res") else "") for x in mm.get("prefix", [])[-14:]))
         ctx.finding(key, what, mm)
     return drift
+
+
+def trace_cfg(addrs, cap_, maxatt):
+    return ("CONSTANTS Addr = {%s} Cap = %d MaxAttempts = %d AttBound = 1000000 MaxGate = 1000000 MaxInfl = 1000000 "
+            "MaxPend = 1000000 WithStop = TRUE Dev = {} Emit = FALSE\nINIT TraceInit\nNEXT TraceNext\nCONSTRAINT HighWater\n"
+            "INVARIANTS TypeOK OneTimer NoTimerWhilePaused\nPOSTCONDITION TraceAccepted\n" % (
+                ",".join('"%s"' % a for a in addrs), cap_, maxatt))
+
+
+def _validate(ctx, name, tracefile, addrs, cap_, maxatt, where):
+    """TLC decides whether the recorded execution is a behaviour of Reconnect.tla; a rejection is classified by the
+    event that could not be matched."""
+    cfgname = "Trace_%s.cfg" % name
+    e = {"TRACE_FILE": tracefile}
+    res = ctx.tlc("TraceReconnect", cfgname, files={cfgname: trace_cfg(addrs, cap_, maxatt)}, workers=1, env=e,
+                  expect_violation=True, name=name, dump_trace=False, tags=("HW", "LEN"))
+    hw = [o for t, o in res.prints if t == "HW"]
+    ln = [o for t, o in res.prints if t == "LEN"]
+    events = [json.loads(l) for l in open(tracefile) if l.strip()]
+    if res.violated and res.violated != "postcondition":
+        ctx.finding("Reconnect:trace-invariant:%s:%s" % (res.violated, where),
+                    "%s: a recorded execution violates %s of Reconnect.tla" % (where, res.violated), {"tlc_tail": res.out[-3000:]})
+        return {"accepted": False, "hw": hw[-1] if hw else 0, "len": len(events)}
+    if not hw or not ln:
+        raise vf.Infra("trace validation did not reach its postcondition:\n" + res.out[-3000:])
+    h = hw[-1]
+    if h == ln[-1] + 1:
+        return {"accepted": True, "hw": h, "len": ln[-1]}
+    ev = events[h - 1] if 0 < h <= len(events) else None
+    ctxt = events[max(0, h - 9):h]
+    # classification of the event that is not a step of the specification
+    name_ = ev and ev.get("ev")
+    kind, dev = "unmatched-%s" % name_, None
+    if name_ == "TimerFire":
+        # a timer the specification does not have: a violation if it goes on to start an attempt
+        for nx in events[h:]:
+            if nx.get("ev") == "Reset":
+                break
+            if nx.get("ev") == "Release" and nx.get("a") == ev.get("a"):
+                if nx.get("res") == "begin":
+                    kind, dev = "extra-attempt", ("DevNoPauseCheckInAttempt" if nx.get("st", {}).get("paused") else "DevDoubleTimer")
+                break
+    elif name_ == "Release" and ev.get("res") == "begin":
+        # the specification says this fired timer does not start an attempt
+        paused_before = False
+        for x in reversed(ctxt[:-1]):
+            if x.get("cmp"):
+                paused_before = x["st"]["paused"]
+                break
+        if paused_before or ev.get("st", {}).get("paused"):
+            kind, dev = "begin-while-paused", "DevNoPauseCheckInAttempt"
+    rec = {"event_index": h, "event": ev, "context": ctxt}
+    if dev:
+        ctx.finding("Reconnect:%s:%s:%s" % (dev, kind, where),
+                    "%s: recorded execution is not a behaviour of Reconnect.tla: event #%d %s (%s); preceding events: %s" % (
+                        where, h, {k: ev[k] for k in ("ev", "a", "i", "res")}, kind,
+                        " ".join("%s%s" % (x["ev"], "(" + x["res"] + ")" if x.get("res") else "") for x in ctxt[:-1])), rec)
+        return {"accepted": False, "hw": h, "len": ln[-1]}
+    return {"accepted": False, "hw": h, "len": ln[-1], "drift": rec}
+
+
+def _direct(ctx, recs, where):
+    for d in recs:
+        kind = d.get("kind")
+        if kind == "infra":
+            raise vf.Infra("%s harness: %s" % (where, d))
+        if kind in VIOLATION_KINDS:
+            dev = VIOLATION_KINDS[kind]
+            ctx.finding("Reconnect:%s:%s:%s" % (dev, kind, where), "%s: %s %s" % (where, kind, d.get("detail", d)), d)
+
+
+def manager(ctx, rounds, k):
+    """real peer.Manager, persistent peer at a dead address (gated dialer)"""
+    out = os.path.join(ctx.work, "recon_manager.ndjson")
+    r = ctx.gotest("peer", HF, "^TestZZVReconManager$", env={"ZZV_OUT": out, "ZZV_ROUNDS": rounds, "ZZV_K": k, "ZZV_CAP": 3})
+    summ = (r.of("summary") or [None])[0]
+    if not summ:
+        raise vf.Infra("manager harness produced no summary:\n" + r.out[-3000:])
+    direct = r.of("direct")
+    _direct(ctx, direct, "Manager")
+    v = _validate(ctx, "manager", out, ["a"], 3, 0, "Manager")
+    timer_missing = [d for d in direct if d.get("kind") in ("timer-missing", "skip-unexpected")]
+    return summ, v, timer_missing
+
+
+def random_traces(ctx, name, ntraces, nops, maxatt, par=16):
+    out = os.path.join(ctx.work, "recon_trace_%s.ndjson" % name)
+    r = ctx.gotest("peer", HF, "^TestZZVReconTrace$", timeout=1500,
+                   env={"ZZV_OUT": out, "ZZV_TRACES": ntraces, "ZZV_OPS": nops, "ZZV_MAXATT": maxatt, "ZZV_CAP": 2, "ZZV_PAR": par,
+                        "ZZV_CORRUPT": os.environ.get("ZZV_CORRUPT", "")})
+    summ = (r.of("summary") or [None])[0]
+    if not summ:
+        raise vf.Infra("trace harness produced no summary:\n" + r.out[-3000:])
+    _direct(ctx, r.of("direct"), "Reconnector")
+    v = _validate(ctx, "trace_" + name, out, ["a", "b"], 2, maxatt, "Reconnector")
+    return summ, v
